@@ -156,8 +156,10 @@ pub fn gen_opts(rng: &mut Rng, rollback: Option<bool>, small_ht: bool) -> Opts {
 /// and the rollback switch (kept, so that the rollback history stays meaningful).
 pub fn regen_opts(rng: &mut Rng, prev: &Opts, keep_log_len: bool) -> Opts {
     let mut o = gen_opts(rng, Some(prev.rollback), false);
-    o.buckets = prev.buckets;
-    o.bitbox_seed = prev.bitbox_seed;
+    // `hashtable_buckets` is documented as used "when creating the database" and `Options::new()`
+    // draws a fresh random bitbox seed every time: a reopen with other values than the creation's
+    // is the normal case and must change nothing (the store keeps what its meta page records)
+    if rng.chance(1, 2) { o.buckets = prev.buckets; o.bitbox_seed = prev.bitbox_seed; } else { o.bitbox_seed = rng.next(); }
     if keep_log_len { o.max_rollback_log_len = prev.max_rollback_log_len; }
     o
 }
